@@ -1,0 +1,29 @@
+//go:build verif
+
+package vgirpc
+
+import "sync/atomic"
+
+// VerifHookFunc is the signature of the verification hook. It is only
+// compiled in with the "verif" build tag and is never installed by
+// production code.
+type VerifHookFunc func(point string, args ...any)
+
+var verifHook atomic.Pointer[VerifHookFunc]
+
+// SetVerifHook installs (or, with nil, removes) the verification hook.
+func SetVerifHook(f VerifHookFunc) {
+	if f == nil {
+		verifHook.Store(nil)
+		return
+	}
+	verifHook.Store(&f)
+}
+
+// verifAt reports that execution reached a named point. The hook may
+// block; that is how a conformance harness gates goroutines.
+func verifAt(point string, args ...any) {
+	if f := verifHook.Load(); f != nil {
+		(*f)(point, args...)
+	}
+}
